@@ -68,7 +68,9 @@ impl InputSpan {
         // `start`/`len` are pest BYTE offsets, so index the string by bytes (not chars),
         // otherwise any multi-byte character (e.g. the canonical `≤`/`≥`) shifts the slice.
         let start = self.start as usize;
-        let end = (self.start + self.len) as usize;
+        // add as usize: `start + len` of a span that was not produced by the parser
+        // (the fields are public) can exceed u32
+        let end = start.saturating_add(self.len as usize);
         if start > text.len() || end > text.len() {
             return Err(format!(
                 "Span out of bounds: {}..{} (text len: {})",
